@@ -154,7 +154,7 @@ Section ByName.
   Theorem create_with_schema_by_name fs vals names' vals' :
     inferable (TStruct fs) -> is_row_of (TStruct fs) (PRow (map sf_name fs) vals) ->
     strs_eqb names' (map sf_name fs) = false -> nodupb names' = true ->
-    strs_eqb (sort_strs names') (sort_strs (map sf_name fs)) = true ->
+    forallb (fun n => str_mem n names') (map sf_name fs) = true ->
     mapM (row_get names' vals') (map sf_name fs) = Ok vals ->
     verify (TStruct fs) true (PRow names' vals') = Ok tt /\
     create_with_schema local (TStruct fs) [PRow names' vals']
